@@ -20,11 +20,11 @@ TRUSTED_BASE = [
 
 PROPS = {
     "C01": dict(
-        families=[("emit", 1500, 40000), ("stream", 800, 20000), ("sb", 300, 8000)],
+        families=[("emit", 1200, 40000), ("stream", 600, 20000), ("sb", 300, 8000), ("cursorfix", 800, 20000), ("wrapdiff", 500, 20000)],
         projection="contents_formatted / state_formatted bytes (Emit.contents_formatted_t, state_formatted_t) and the screen state they are computed from",
     ),
     "C02": dict(
-        families=[("emit", 2000, 60000), ("modes", 300, 4000)],
+        families=[("emit", 1500, 60000), ("wrapdiff", 1500, 40000), ("cursorfix", 500, 10000), ("modes", 300, 4000)],
         projection="contents_diff / state_diff bytes (Emit.contents_diff_t, state_diff_t) against snapshots",
     ),
     "C03": dict(
@@ -68,7 +68,7 @@ PROPS = {
         projection="scrollback rows, offset, visible rows at every offset",
     ),
     "C13": dict(
-        families=[("stream", 1500, 40000), ("resize", 500, 15000)],
+        families=[("stream", 1200, 40000), ("resize", 1500, 30000), ("cursorfix", 300, 5000)],
         projection="full state dump and public-accessor observation after histories",
     ),
     "C14": dict(
@@ -76,7 +76,7 @@ PROPS = {
         projection="contents(), rows(start,width), contents_between() text",
     ),
     "C15": dict(
-        families=[("emit", 2000, 50000)],
+        families=[("emit", 1500, 50000), ("wrapdiff", 800, 20000), ("cursorfix", 500, 10000)],
         projection="rows_formatted / rows_diff / cursor_state_formatted / attributes_formatted bytes",
     ),
     "C16": dict(
@@ -92,7 +92,7 @@ PROPS = {
         projection="callback event log and vte action stream",
     ),
     "C19": dict(
-        families=[("emit", 2000, 50000)],
+        families=[("emit", 1500, 50000), ("cursorfix", 1000, 20000), ("wrapdiff", 500, 10000)],
         projection="all emitters as functions of the observable state",
     ),
 }
